@@ -1,4 +1,173 @@
-import SafeC.Models.Copy
-/-! Property theorems for C09 (see DESIGN.md §4). -/
+import SafeC.Proofs.Fmt
+/-!
+# C09 — `%n` is never executed by any formatted input or output function
+
+Models: `SafeC/Models/Fmt.lean`.  Entry points fall into two groups.
+
+* **engine-based** (`sprintf_s vsprintf_s snprintf_s vsnprintf_s printf_s fprintf_s vfprintf_s`):
+  the format is interpreted by safeclib's own `safec_vsnprintf_s`, which contains no store through
+  an argument at all; what has to be shown is the second half of the property, *such a format is
+  rejected*: `engine_rejects_n`, for every format, against libc's full directive grammar.
+* **libc-delegating** (`vprintf_s`; the 8 wide printf functions; the 6 narrow and 6 wide scanf
+  functions): the only defence is the `strstr(fmt, "%n")` pre-scan, then libc interprets the
+  format.  The full statement
+
+      theorem delegating_C09 (fmt) : prescan fmt = false → libcScanfStoresN fmt = false      -- FALSE
+      theorem delegating_printf_C09 (fmt) : prescan fmt = false → libcPrintfStoresN fmt = false  -- FALSE
+
+  is false of the model because it is false of the code (`*_witness`); it is proved under the two
+  hypotheses the proof needs (`*_partial`): every `n` conversion is written exactly `%n`, and the
+  format nowhere has an `n` behind two percent signs.  Both are necessary (`*_needs_*_witness`).
+-/
 namespace SafeC.Props.C09
+open SafeC.Fmt
+
+/-! ## engine-based entry points -/
+
+/-- engine, all formats: if libc's printf grammar (with glibc's extensions) finds an `n` conversion anywhere
+    in the format, `safec_vsnprintf_s` returns a negative value from its specifier switch (the `n` case, or an
+    illegal-specifier case earlier in the format) -/
+theorem engine_rejects_n (fmt : Str) (h : libcPrintfStoresN fmt = true) : engineRejects fmt = true := by
+  unfold engineRejects engine
+  apply engLoop_rejects
+  intro hn
+  simp [libcPrintfStoresN, libcPrintfNs, hn] at h
+
+/-- the seven engine-based entry points (pre-scan, then engine) reject every format with an `n` conversion -/
+theorem engine_entry_rejects_n (fmt : Str) (h : libcPrintfStoresN fmt = true) : enginePrintfRejects fmt = true := by
+  simp [enginePrintfRejects, engine_rejects_n fmt h]
+
+/-- one directive: what the engine accepts, libc reads as the same characters and not as an `n` conversion
+    (this also covers the single-directive sub-format the engine hands to libc's `snprintf` for `%Lf %La %a`) -/
+theorem engine_directive_sync (f r : Str) (h : engDirective f = .next r) : libcPDirective f = (false, r) :=
+  engDirective_sync f r h
+
+/-- the spellings named in the property text, decided on the engine model (instances of `engine_rejects_n`) -/
+theorem engine_rejects_samples :
+    ∀ w ∈ ["%n", "%ln", "%lln", "%hhn", "%hn", "%jn", "%zn", "%tn", "%Ln", "%5n", "%*n", "%-n", "% n", "%+n", "%#n",
+           "%0n", "%.3n", "%.*n", "%-+ #05.3lln", "%1$n", "%%%n", "%%n%n", "%d%%%d%hhn", "ab%5.2dcd%n"],
+      engineRejects w.toList = true := by decide
+
+/-! ## the fuel of the three loops is enough (they do read the whole format) -/
+
+/-- more fuel than the length of the format changes nothing: the engine's loop -/
+theorem engine_fuel (fmt : Str) (d : Nat) : engLoop (fmt.length + d) fmt = engine fmt := by
+  induction d with
+  | zero => rfl
+  | succ d ih => rw [← Nat.add_assoc, engLoop_fuel _ _ (Nat.le_add_right _ _), ih]
+
+/-- more fuel than the length of the format changes nothing: printf grammar -/
+theorem libcPrintfNs_fuel (fmt : Str) (d : Nat) : printfNs (fmt.length + d) fmt = libcPrintfNs fmt := by
+  induction d with
+  | zero => rfl
+  | succ d ih => rw [← Nat.add_assoc, printfNs_fuel _ _ (Nat.le_add_right _ _), ih]
+
+/-- more fuel than the length of the format changes nothing: scanf grammar -/
+theorem libcScanfNs_fuel (fmt : Str) (d : Nat) : scanfNs (fmt.length + d) fmt = libcScanfNs fmt := by
+  induction d with
+  | zero => rfl
+  | succ d ih => rw [← Nat.add_assoc, scanfNs_fuel _ _ (Nat.le_add_right _ _), ih]
+
+/-! ## libc-delegating entry points: scanf family (12 entry points) -/
+
+/- FULL STATEMENT (false):
+   theorem delegating_C09 (fmt : Str) : prescan fmt = false → libcScanfStoresN fmt = false -/
+
+/-- formats the pre-scan lets through although libc's scanf stores through an argument for an `n` conversion -/
+theorem delegating_C09_witness :
+    ∀ w ∈ ["%ln", "%lln", "%hhn", "%hn", "%jn", "%zn", "%tn", "%Ln", "%qn", "%mn", "%5n", "%1$n", "%'n", "%In",
+           "%%%n", "%%n%n", "%d%%%n", "%[%%n]%n"],
+      prescan w.toList = false ∧ libcScanfStoresN w.toList = true := by decide
+
+/-- scanf family, every format: if every `n` conversion libc finds is written exactly `%n`, and the format has
+    no `n` directly behind two `%`, then a format the pre-scan lets through makes libc store through no argument
+    for `%n` -/
+theorem delegating_C09_partial (fmt : Str)
+    (hbare : NSpell.decorated ∉ libcScanfNs fmt)
+    (hesc : ¬ ['%', '%', 'n'] <:+: fmt)
+    (hps : prescan fmt = false) : libcScanfStoresN fmt = false := by
+  have hno := prescan_false_no_pctn hps hesc
+  cases hl : libcScanfNs fmt with
+  | nil => simp [libcScanfStoresN, hl]
+  | cons x xs =>
+    exfalso
+    cases x with
+    | bare =>
+      have hm : NSpell.bare ∈ scanfNs fmt.length fmt := by
+        have : scanfNs fmt.length fmt = NSpell.bare :: xs := hl
+        rw [this]; exact List.mem_cons_self
+      exact hno (scanfNs_bare_infix _ fmt hm)
+    | decorated => exact hbare (by rw [hl]; exact List.mem_cons_self)
+
+/-- the first hypothesis is needed: `%ln` has no `%%n`, passes the pre-scan, and stores -/
+theorem delegating_C09_needs_bare_witness :
+    ¬ ['%', '%', 'n'] <:+: "%ln".toList ∧ prescan "%ln".toList = false ∧ libcScanfStoresN "%ln".toList = true := by
+  decide
+
+/-- the second hypothesis is needed: in `%%%n` and `%%n%n` every `n` conversion is a bare `%n` -/
+theorem delegating_C09_needs_noesc_witness :
+    ∀ w ∈ ["%%%n", "%%n%n"], NSpell.decorated ∉ libcScanfNs w.toList ∧ prescan w.toList = false ∧
+      libcScanfStoresN w.toList = true := by decide
+
+/-- the hypotheses of `delegating_C09_partial` are satisfiable by formats with and without `n` -/
+example : libcScanfStoresN "a%d%%b %5s%*n%[%]n]".toList = false :=
+  delegating_C09_partial _ (by decide) (noPctPctN_sound (by decide)) (by decide)
+example : prescan "%d %n".toList = true ∧ NSpell.decorated ∉ libcScanfNs "%d %n".toList ∧
+    noPctPctN "%d %n".toList = true := by decide
+
+/-! ## libc-delegating entry points: printf family (8 wide entry points and `vprintf_s`) -/
+
+/- FULL STATEMENT (false):
+   theorem delegating_printf_C09 (fmt : Str) : prescan fmt = false → libcPrintfStoresN fmt = false -/
+
+/-- formats the pre-scan lets through although libc's printf stores through an argument for an `n` conversion -/
+theorem delegating_printf_C09_witness :
+    ∀ w ∈ ["%ln", "%lln", "%hhn", "%hn", "%jn", "%zn", "%tn", "%Ln", "%qn", "%Zn", "%5n", "%*n", "%-n", "% n", "%+n",
+           "%#n", "%0n", "%'n", "%In", "%.3n", "%.*n", "%.n", "%1$n", "%1$*2$n", "%%%n", "%%n%n", "%d%%%n"],
+      prescan w.toList = false ∧ libcPrintfStoresN w.toList = true := by decide
+
+/-- printf family, every format: same statement as `delegating_C09_partial` for libc's printf grammar -/
+theorem delegating_printf_C09_partial (fmt : Str)
+    (hbare : NSpell.decorated ∉ libcPrintfNs fmt)
+    (hesc : ¬ ['%', '%', 'n'] <:+: fmt)
+    (hps : prescan fmt = false) : libcPrintfStoresN fmt = false := by
+  have hno := prescan_false_no_pctn hps hesc
+  cases hl : libcPrintfNs fmt with
+  | nil => simp [libcPrintfStoresN, hl]
+  | cons x xs =>
+    exfalso
+    cases x with
+    | bare =>
+      have hm : NSpell.bare ∈ printfNs fmt.length fmt := by
+        have : printfNs fmt.length fmt = NSpell.bare :: xs := hl
+        rw [this]; exact List.mem_cons_self
+      exact hno (printfNs_bare_infix _ fmt hm)
+    | decorated => exact hbare (by rw [hl]; exact List.mem_cons_self)
+
+theorem delegating_printf_C09_needs_bare_witness :
+    ¬ ['%', '%', 'n'] <:+: "%-n".toList ∧ prescan "%-n".toList = false ∧ libcPrintfStoresN "%-n".toList = true := by
+  decide
+
+theorem delegating_printf_C09_needs_noesc_witness :
+    ∀ w ∈ ["%%%n", "%%n%n"], NSpell.decorated ∉ libcPrintfNs w.toList ∧ prescan w.toList = false ∧
+      libcPrintfStoresN w.toList = true := by decide
+
+example : libcPrintfStoresN "a%d%%b %-5.3ld%c".toList = false :=
+  delegating_printf_C09_partial _ (by decide) (noPctPctN_sound (by decide)) (by decide)
+
+/-! ## the pre-scan itself -/
+
+/-- what a pre-scan that lets the format through establishes, all formats: no `%n` at all, or some `n` behind `%%` -/
+theorem prescan_false_iff_shape (fmt : Str) (hps : prescan fmt = false) :
+    ¬ ['%', 'n'] <:+: fmt ∨ ['%', '%', 'n'] <:+: fmt := by
+  by_cases h : ['%', '%', 'n'] <:+: fmt
+  · exact Or.inr h
+  · exact Or.inl (prescan_false_no_pctn hps h)
+
+/-- the alternative pre-scan in the sources (`#elif defined(HAVE_STRCHR)`, not compiled in this configuration, and
+    not compilable) would be unsound as well: it looks at the first `n` of the format only -/
+theorem prescanChr_unsound_witness :
+    ∀ w ∈ ["n%n", "%dn%n", "%%n%n", "%ln"], prescanChr w.toList = false ∧ libcScanfStoresN w.toList = true ∧
+      libcPrintfStoresN w.toList = true := by decide
+
 end SafeC.Props.C09
